@@ -13,7 +13,7 @@ def extra_entries():
     from nflows.flows.realnvp import SimpleRealNVP
     from nflows.flows.base import Flow
     from nflows.distributions import normal, mixture
-    from nflows.transforms import permutations as perm, base, conv, nonlinearities as nl, made, normalization as norm_, standard as std_, lu as lu_, coupling as cp_
+    from nflows.transforms import permutations as perm, base, conv, nonlinearities as nl, made, normalization as norm_, standard as std_, lu as lu_, coupling as cp_, linear as linear_
     from nflows.utils import torchutils as tu_
     from nflows.nn import nets as nets_
     return [
@@ -32,6 +32,12 @@ def extra_entries():
         ("ConditionalDiagonalNormal([2,3], Linear encoder)", lambda: normal.ConditionalDiagonalNormal([2, 3], context_encoder=torch.nn.Linear(3, 12)), [2, 3], [3]),
         ("ConditionalDiagonalNormal([4], MLP encoder)", lambda: normal.ConditionalDiagonalNormal([4], context_encoder=torch.nn.Sequential(torch.nn.Linear(2, 6), torch.nn.Tanh(), torch.nn.Linear(6, 8))), [4], [2]),
         ("Flow(ActNorm image, ConditionalDiagonalNormal([2,2,2], Linear encoder))", lambda: Flow(norm_.ActNorm(2), normal.ConditionalDiagonalNormal([2, 2, 2], context_encoder=torch.nn.Linear(3, 16))), [2, 2, 2], [3]),
+        ("NaiveLinear(2 features, orthogonal initialisation)", lambda: linear_.NaiveLinear(2), [2], None),
+        ("NaiveLinear(3 features, orthogonal initialisation)", lambda: linear_.NaiveLinear(3), [3], None),
+        ("NaiveLinear(4 features, orthogonal initialisation)", lambda: linear_.NaiveLinear(4), [4], None),
+        ("NaiveLinear(5 features, orthogonal initialisation)", lambda: linear_.NaiveLinear(5), [5], None),
+        ("NaiveLinear(6 features, orthogonal initialisation)", lambda: linear_.NaiveLinear(6), [6], None),
+        ("NaiveLinear(8 features, orthogonal initialisation)", lambda: linear_.NaiveLinear(8), [8], None),
         ("LULinear(5 features)", lambda: lu_.LULinear(5, identity_init=False), [5], None),
         ("OneByOneConvolution(4 channels)", lambda: conv.OneByOneConvolution(4, identity_init=False), [4, 2, 2], None),
         ("MADE(random mask)", None, None, None),
